@@ -609,6 +609,15 @@ func (backend *Backend) GetActiveConnections() int32 {
 	return atomic.LoadInt32(&backend.ActiveConnections)
 }
 
+// publishConnections copies the backend's connection gauge to the metrics
+// mirror. Reading and publishing happen in one critical section, so that the
+// value published last is the current one however concurrent requests interleave.
+func (lb *LoadBalancer) publishConnections(backend *Backend) {
+	backend.Mutex.Lock()
+	defer backend.Mutex.Unlock()
+	lb.metricsCollector.UpdateBackendConnections(backend.Name, backend.GetActiveConnections())
+}
+
 // GetMetricsCollector returns the metrics collector
 func (lb *LoadBalancer) GetMetricsCollector() *metrics.MetricsCollector {
 	return lb.metricsCollector
@@ -722,7 +731,7 @@ func (lb *LoadBalancer) proxyRequest(backend *Backend, w http.ResponseWriter, r 
 	// Track the active connection
 	backend.IncrementConnections()
 	vgate("px:pubinc")
-	lb.metricsCollector.UpdateBackendConnections(backend.Name, backend.GetActiveConnections())
+	lb.publishConnections(backend)
 
 	// Create a custom response writer to capture the status code
 	rw := &responseWriter{
@@ -737,7 +746,7 @@ func (lb *LoadBalancer) proxyRequest(backend *Backend, w http.ResponseWriter, r 
 	defer func() {
 		backend.DecrementConnections()
 		vgate("px:pubdec")
-		lb.metricsCollector.UpdateBackendConnections(backend.Name, backend.GetActiveConnections())
+		lb.publishConnections(backend)
 		if !completed {
 			lb.recordRequestMetrics(backend, http.StatusBadGateway, startTime, r)
 		}
